@@ -30,7 +30,7 @@ ASSUMPTIONS = [
     'logging has an empty body',
     'granularity g = 1 s (int(time.time()) truncation) is part of the claim: "silence > H" is detected at the latest at H+1',
 ]
-BOUNDS = {'quick': {'H': '0 and 3..65535 symbolic (complete)', 'time': 'unbounded reals', 'steps': 'one timer call from an arbitrary reachable state'},
+BOUNDS = {'quick': {'H': '0 and 3..65535 symbolic (complete)', 'time': 'unbounded reals', 'steps': 'one timer call from an arbitrary reachable state', 'loop': 'H in {3,9,0}, 2-3 peer behaviours out of 8 after the handshake; open wait early/late'},
           'thorough': {'H': 'same', 'time': 'same', 'steps': 'two consecutive calls (message then silence)'}}
 OUTSIDE = ['wall-clock jumps backwards (time is assumed non-decreasing)', 'scheduling delay of the event loop beyond the stated granularity']
 
@@ -221,15 +221,17 @@ def h_lemma(ctx):
 
 
 def units(tier):
+    def kernel(fn):
+        def run(ctx):
+            tm.time = CLOCK     # the loop units install the peer kit's virtual clock in the same module global
+            return fn(ctx)
+        return run
     us = [
-        Unit('kernel/receive', h_receive, must_cover=('fired', 'quiet', 'refreshed')),
-        Unit('kernel/receive-H0', h_receive_zero, must_cover=('2-6',)),
-        Unit('kernel/send', h_send, must_cover=('H0', 'due', 'not-due')),
+        Unit('kernel/receive', kernel(h_receive), must_cover=('fired', 'quiet', 'refreshed')),
+        Unit('kernel/receive-H0', kernel(h_receive_zero), must_cover=('2-6',)),
+        Unit('kernel/send', kernel(h_send), must_cover=('H0', 'due', 'not-due')),
         Unit('lemma/int-div3', h_lemma, must_cover=('lemma',), weight=100),
     ]
-    try:
-        from checks import c12_loop
-        us += c12_loop.units(tier)
-    except ImportError:
-        pass
+    from checks import c12_loop
+    us += c12_loop.units(tier)
     return us
